@@ -148,6 +148,22 @@ func c19Infer(c *vk.Ctx, id, ts string, soundness bool) (accepted bool) {
 		vals := []any{sampleVal(t, 0), sampleVal(t, 1), sampleVal(t, 2)}
 		var w refwire.W
 		refcol.EncodeBlockBody(&w, 54460, refwire.BlockInfo{BucketNum: -1}, 3, []refcol.BlockCol{{Name: "x", Type: t, Vals: vals}})
+		if strings.Contains(ts, "Nullable(") {
+			// the same block with the masked slots of the NULLs holding zero bytes, as a server's
+			// column has them after a plain NULL insert (also where 0 is not a member of an enum)
+			var wz refwire.W
+			refcol.NullSlotZero = true
+			refcol.EncodeBlockBody(&wz, 54460, refwire.BlockInfo{BucketNum: -1}, 3, []refcol.BlockCol{{Name: "x", Type: t, Vals: vals}})
+			refcol.NullSlotZero = false
+			if !bytes.Equal(wz.B, w.B) {
+				var rz proto.Results
+				var bz proto.Block
+				if err := bz.DecodeBlock(proto.NewReader(bytes.NewReader(wz.B)), 54460, rz.Auto()); err != nil {
+					c.Violation("C19/inferred-column-cannot-decode/null-slot-zero/"+outerKind(ts), id, fmt.Sprintf("a block of type %q whose NULL rows carry zero bytes in the masked slot does not decode through the inferred column: %v", ts, err), nil)
+					return
+				}
+			}
+		}
 		var res proto.Results
 		var blk proto.Block
 		if err := blk.DecodeBlock(proto.NewReader(bytes.NewReader(w.B)), 54460, res.Auto()); err != nil {
@@ -187,7 +203,7 @@ func c19Infer(c *vk.Ctx, id, ts string, soundness bool) (accepted bool) {
 
 // C19 — type inference is total and sound; type compatibility is symmetric.
 func C19(c *vk.Ctx) {
-	c.Rule("type strings: (a) every type the registry's base columns report, legal and illegal parameterisations (time zones, DateTime64 precisions 0..10, Decimal precisions at every width boundary, FixedString sizes incl. 0 / negative / non-numeric, enum definitions with quoted commas and parentheses, interval kinds, types the library does not know), each under Array / Nullable / LowCardinality / Map / Tuple wrappers to depth 1, a smaller base set to depth 2 (thorough 3); (a2) all histories Infer(A), [refused Infer(X)], Infer(B) on one ColAuto over a 30-type set (unrelated types, parameter-only siblings, refused types): whatever is accepted for B must come with a column whose type does not conflict with B and whose parameters are those a fresh ColAuto derives from B; (b) ALL token strings of length <= n (quick 5, thorough 6) over a 25-token alphabet of type names, punctuation, parameters and junk; (c) nesting depth 10000; (d) every single edit (deletion, insertion or replacement by one of ()',= 0a- at every position, every truncation) of the set-(a) types with at most 3 parentheses; (e) ALL character strings of length <= m (quick 5, thorough 6) over the alphabet {' a = 1 , space - ( )} as the parameter list of Enum8 / Enum16 / DateTime / DateTime64 / Decimal / Decimal64 / FixedString / Map / Tuple / Nested, bare and under Nullable / Array. Oracle: Infer never panics; when it accepts, the column's type does not conflict with the request and a block of that type written by the reference model decodes to the written values. Conflicts is checked reflexive and symmetric on all ordered pairs of set (a) and against the documented equivalences, generated from families of spellings with one wire layout (enum / bare enum / underlying integer; DecimalN / Decimal(P, S) at both ends of each precision range; timestamps with and without zone; Map / Tuple types with 0 / 1 / 2 / 4 spaces after each comma), bare and under Array / Nullable / LowCardinality, with the pairs across families of one group required to conflict. distinct_nontrivial = distinct type strings + ordered pairs.")
+	c.Rule("type strings: (a) every type the registry's base columns report, legal and illegal parameterisations (time zones, DateTime64 precisions 0..10, Decimal precisions at every width boundary, FixedString sizes incl. 0 / negative / non-numeric, enum definitions with quoted commas and parentheses, interval kinds, types the library does not know), each under Array / Nullable / LowCardinality / Map / Tuple wrappers to depth 1, a smaller base set to depth 2 (thorough 3); (a2) all histories Infer(A), [refused Infer(X)], Infer(B) on one ColAuto over a 30-type set (unrelated types, parameter-only siblings, refused types): whatever is accepted for B must come with a column whose type does not conflict with B and whose parameters are those a fresh ColAuto derives from B; (b) ALL token strings of length <= n (quick 5, thorough 6) over a 25-token alphabet of type names, punctuation, parameters and junk; (c) nesting depth 10000; (d) every single edit (deletion, insertion or replacement by one of ()',= 0a- at every position, every truncation) of the set-(a) types with at most 3 parentheses; (e) ALL character strings of length <= m (quick 5, thorough 6) over the alphabet {' a = 1 , space - ( )} as the parameter list of Enum8 / Enum16 / DateTime / DateTime64 / Decimal / Decimal64 / FixedString / Map / Tuple / Nested, bare and under Nullable / Array. Oracle: Infer never panics; when it accepts, the column's type does not conflict with the request and a block of that type written by the reference model decodes to the written values (for Nullable types also with zero bytes in the masked slots of the NULL rows, as servers write them). Conflicts is checked reflexive and symmetric on all ordered pairs of set (a) and against the documented equivalences, generated from families of spellings with one wire layout (enum / bare enum / underlying integer; DecimalN / Decimal(P, S) at both ends of each precision range; timestamps with and without zone; Map / Tuple types with 0 / 1 / 2 / 4 spaces after each comma), bare and under Array / Nullable / LowCardinality, with the pairs across families of one group required to conflict. distinct_nontrivial = distinct type strings + ordered pairs.")
 	quick := c.Quick()
 	types := c19Types(quick)
 	accepted := 0
